@@ -9,6 +9,7 @@ import subprocess
 import sys
 
 ROOT = os.path.dirname(os.path.dirname(os.path.abspath(__file__)))
+sys.setrecursionlimit(100000)
 sys.path.insert(0, ROOT)
 
 LEVELS = {
